@@ -123,6 +123,10 @@ def lockstep(ops, primary, replica):
 def gen_c17(rng, oracle, index, tier="quick"):
     p = gen.make_profile(rng, tier)
     p["nops"] = rng.choice([4, 8, 12, 15])
+    if rng.random() < 0.3:
+        # wider integers: constants and big-M coefficients that do not fit the narrowest integer types
+        p["bounds_family"] = rng.choice(["medium", "medium", "huge", "wide"])
+        p["int_leaf_prob"] = max(p["int_leaf_prob"], 0.5)
     p["prefix_const_prob"] = rng.choice([0, 0.05])
     g = gen.Gen(rng, p, oracle, max_box=1 << 13)
     # ---- pre-history
